@@ -104,6 +104,11 @@ func genCfg(c *core.Ctx, idx int, plans []wl.NamedPlan) wl.Cfg {
 		cfg.Sizes = []int{1, 15, 16, 17, 40}
 		cfg.Plan = []mon.Step{{At: "tW0", Occ: 0, Kind: mon.Sleep, D: time.Duration(50+rng.Intn(300)) * time.Microsecond}}
 		cfg.PlanKind = "write-buffered-wrapper:every-conn-write-slow"
+		if rng.Intn(2) == 0 {
+			// the channel is closed while writes (and their flushes) are still in flight on the slow connection
+			cfg.Closer, cfg.LateWriters = 1, 1+rng.Intn(2)
+			cfg.PlanKind += "+close-in-flight"
+		}
 	}
 	return cfg
 }
